@@ -232,7 +232,7 @@ ADDENDA = {
 
 GEN_TABLES = {"C02": "operator tables, expression tower and is-[not]-predicate twins of parser.py", "C03": "getArgNames of every built-in",
               "C09": "native table with secure flags, OS effects and instantiation guards", "C14": "scanner character classes, keywords and state graph",
-              "C19": "ASTs of the bundled .ckl library functions"}
+              "C18": "ASTs of the string.ckl library functions", "C19": "ASTs of the bundled .ckl library functions"}
 
 
 def main():
